@@ -41,7 +41,35 @@ func NewDBIFromData(data []byte) (*DBI, error) {
 	if err := d.indexData(); err != nil {
 		return nil, err
 	}
+	// Entries are decoded lazily by Next() while a snapshot is being merged.
+	// Check them once here, so that a corrupt snapshot is rejected when it is
+	// loaded (and then ignored) instead of failing a merge halfway.
+	if err := d.validateEntries(); err != nil {
+		return nil, err
+	}
 	return &d, nil
+}
+
+// MaxKeySize is the largest key LMDB accepts
+const MaxKeySize = 511
+
+// validateEntries decodes all entries once to check that they are well-formed
+// and can be stored in an LMDB.
+func (d *DBI) validateEntries() error {
+	defer d.ResetCursor()
+	d.ResetCursor()
+	for {
+		kv, err := d.Next()
+		if err != nil {
+			if err == io.EOF {
+				return nil
+			}
+			return err
+		}
+		if len(kv.Key) == 0 || len(kv.Key) > MaxKeySize {
+			return fmt.Errorf("dbi %q: invalid key size %d", d.name, len(kv.Key))
+		}
+	}
 }
 
 // DBI describes the contents of a single DBI.
